@@ -72,6 +72,13 @@ def peval(n, optype, out):
         if k == "block":
             for s in n.get("stmts", []):
                 e = s.get("init") if s["k"] == "let" else s.get("e")
+                e1 = H.strip(e) if e is not None else None
+                if e1 is not None and e1.get("k") == "if" and "e" not in e1 and cond_value(e1["c"]) is None:
+                    # `if g { return .. }` — what follows runs under !g
+                    g = residual(e1["c"])
+                    if not go(e1["t"], guards + [g]):
+                        guards = guards + ["!(" + g + ")"]
+                    continue
                 if e is not None and not go(e, guards):
                     return False
             if n.get("expr") is not None:
@@ -171,7 +178,13 @@ def run(F, R, tier):
                         elif kinds == {"err"}:
                             got = "err"
                         elif kinds == {"ok", "err"}:
-                            if "is_zero" in guards:
+                            # the rejecting test must dominate every accepting path: each `ok` outcome carries the
+                            # negation of a guard that leads to the error
+                            errg = {gs[-1] for o, gs in out if o == "err" and gs}
+                            unguarded = [gs for o, gs in out if o == "ok" and not any(("!(" + g + ")") in gs for g in errg)]
+                            if unguarded:
+                                got = "ok+unguarded(a result is produced without passing the test %s: path %s)" % (sorted(errg), unguarded[0])
+                            elif "is_zero" in guards:
                                 got = "ok+zero"
                             elif "< 0" in guards:
                                 got = "ok+neg"
